@@ -41,6 +41,9 @@ CHECKS = {
     "C05": ("round-trip monitor: serialize then deserialize (directly and through json) compared by canonical typed image; dual direction checked as fixpoint + subsumption of the input",
             "Exploration: on the bijective fragment (+ std converted types, discriminated unions) every value drawn from the image of deserialize must come back identical with the same runtime classes, also through json.dumps/loads and under aliasers; serialize(deserialize(d)) must contain d, re-deserialize to an equal value and be a fixpoint.",
             "Trusted: canonical image function; the generator's decision of the bijective fragment (documented exclusions are counted in the evidence).", "DESIGN §5 C05"),
+    "C07": ("output monitor: serialize(T, v) validated by jsonschema against serialization_schema(T) generated under the same global settings + explicit key-level sub-claims (declared keys, required keys, methods / init=False fields present)",
+            "Exploration: for generated programs and well-typed values, under the four combinations of global exclude_defaults / exclude_none, aliasers and additional_properties, the serialized data must validate against the serialization schema; every emitted key must be declared or allowed, every required key emitted, serialized methods and init=False fields present in properties.",
+            "Trusted: jsonschema validator; explanatory model for the flattened-object finding (F22); dependent_required programs are not generated (input-side rule).", "DESIGN §5 C07"),
 }
 PLANNED = {
 }
